@@ -60,12 +60,19 @@ class Plane(GeoBody):
                 isinstance(a, Point) and isinstance(b, Vector) and isinstance(c, Vector)
             ):
                 vab, vac = b, c
+            # Collinear points (or parallel vectors) do not define a plane
+            if vab.parallel(vac):
+                raise ValueError(
+                    "Invalid Plane, the three points are collinear or the two vectors are parallel"
+                )
             # We need a vector orthogonal to the two given ones so we
             # (the length doesn't matter) so we just use the cross
             # product
             vec = vab.cross(vac)
             self._init_pn(a, vec)
         elif len(args) == 2:
+            if args[1].length() < get_eps():
+                raise ValueError("Invalid Plane, the normal vector is Vector(0 | 0 | 0)")
             self._init_pn(*args)
         elif len(args) == 4:
             self._init_gf(*args)
@@ -163,7 +170,7 @@ class Plane(GeoBody):
             self.p.move(v)
             return Plane(self.p, self.n)
         else:
-            return NotImplementedError(
+            raise NotImplementedError(
                 "The second parameter for move function must be Vector"
             )
 
